@@ -67,7 +67,7 @@ func vfc09Limits(rng *rand.Rand, n int) []uint64 {
 func TestVF_C09(t *testing.T) {
 	r := vfkit.Start(t, "C09")
 	defer r.Finish()
-	r.Rule("part 1: concurrent limiter rounds - one real series / chunks / bytes limiter per round, 2..6 goroutines (the per-block goroutines of one Series call) reserve 1..40 times each and stop at their first error, limits at total-1, total, total+1, total/2, total/4, 1, GOMAXPROCS cycled 2/4/8/16; oracle: granted reservations never add up to more than the limit and an over-subscribed limiter rejects somebody; non-trivial = round in which reservations overlapped. " +
+	r.Rule("part 1: concurrent limiter rounds - one real series / chunks / bytes limiter per round, 2..6 goroutines (the per-block goroutines of one Series call) reserve 40..200 times each and stop at their first error, limits at total-1, total, total+1, total/2, total/4, 1, GOMAXPROCS cycled 2/4/8/16; oracle: granted reservations never add up to more than the limit and an over-subscribed limiter rejects somebody; non-trivial = round in which reservations overlapped. " +
 		"part 2: case = one generated fixture (1..3 raw blocks incl. replica/overlapping blocks) served by one BucketStore (index cache none/large, small series-size estimate so that lazy expanded postings trigger) x generated requests (40% series-only, SkipChunks=true). " +
 		"Each request is first answered without limits (true N_series, N_chunks of the merged answer), then re-issued with series and/or chunk limits drawn from {N-1, N, N+1, 1, 2N, N/2}; lazy-postings settings and series batch size (1,2,10000) are drawn per request. " +
 		"oracle: a successful limited call returns at most limit series/chunks and exactly the unlimited answer; if N exceeds a limit the call must fail and the gRPC code must be ResourceExhausted. Failing although N <= limit is counted, not flagged " +
@@ -76,7 +76,7 @@ func TestVF_C09(t *testing.T) {
 	nReq := r.N(34, 100)
 	r.Require(int64(nFix*nReq*2), nFix*nReq/2)
 	r.Assume("limit 0 means unlimited (documented); the unlimited answer of the same store instance is the true answer (its correctness is C10's subject)")
-	vfc09LimiterRounds(r, r.N(4000, 60000))
+	vfc09LimiterRounds(r, r.N(2000, 30000))
 	base := t.TempDir()
 	vfc07Parallel(r, nFix, 4, func(c int) {
 		vfc07Guard(r, c, "c09-fixture", func() { vfc09RunFixture(t, r, c, r.Rand(c), nReq, filepath.Join(base, fmt.Sprintf("case%d", c))) })
@@ -103,7 +103,7 @@ func vfc09LimiterRounds(r *vfkit.Run, n int) {
 		nums := make([][]uint64, g)
 		var total uint64
 		for k := range nums {
-			for j := 0; j < 1+rng.Intn(40); j++ {
+			for j := 0; j < 40+rng.Intn(160); j++ {
 				v := uint64(1 + rng.Intn(3))
 				nums[k] = append(nums[k], v)
 				total += v
@@ -127,7 +127,7 @@ func vfc09LimiterRounds(r *vfkit.Run, n int) {
 			l := NewBytesLimiterFactory(units.Base2Bytes(limit))(ctr)
 			reserve = func(v uint64) error { return l.ReserveWithType(v, ChunksFetched) }
 		}
-		var granted, inflight, maxInflight atomic.Int64
+		var granted, inflight, maxInflight, arrived atomic.Int64
 		var rejected atomic.Bool
 		start := make(chan struct{})
 		var wg sync.WaitGroup
@@ -136,6 +136,12 @@ func vfc09LimiterRounds(r *vfkit.Run, n int) {
 			go func(mine []uint64) {
 				defer wg.Done()
 				<-start
+				// rendezvous so that the goroutines really reserve at the same time (bounded: every
+				// goroutine of the round arrives here)
+				arrived.Add(1)
+				for arrived.Load() < int64(g) {
+					runtime.Gosched()
+				}
 				for _, v := range mine {
 					if c := inflight.Add(1); c > maxInflight.Load() {
 						maxInflight.Store(c)
@@ -170,7 +176,7 @@ func vfc09LimiterRounds(r *vfkit.Run, n int) {
 	}
 	r.Count("limiter_rounds", n)
 	r.Count("limiter_rounds_with_overlapping_reservations", overlapping)
-	if !r.Replaying() && overlapping < n/10 {
+	if !r.Replaying() && overlapping < n/25 {
 		r.Inconclusive(fmt.Sprintf("only %d of %d concurrent limiter rounds had overlapping reservations", overlapping, n))
 	}
 }
